@@ -145,6 +145,7 @@ func probeFlight(p flightArg) (string, string) {
 }
 
 type txtArg struct {
+	Max      *int    `json:"max_input_length,omitempty"` // nil = default 45
 	In       mc.Bin  `json:"in"`
 	Rule     int     `json:"rule"`
 	Prev     *mc.Bin `json:"previous_call,omitempty"` // history of depth 2: parsed first, on the buffer that is then reused for In
@@ -152,9 +153,19 @@ type txtArg struct {
 	PrevVia  int     `json:"previous_via,omitempty"` // the single previous call: 0 DefaultParser[[]byte] on the shared buffer, 1 DefaultParser[string], 2 UnmarshalText on the shared buffer
 }
 
+func setupText(a txtArg) {
+	uu.MaxInputLength = 45
+	if a.Max != nil {
+		uu.MaxInputLength = *a.Max
+	}
+}
+
 func probeText(a txtArg) (string, string) {
 	in := []byte(a.In)
 	cls, hi, lo := oracle.UUIDParse(in, a.Rule&int(uu.RuleDisableURN) != 0, a.Rule&int(uu.RuleDisableUpperCaseDigits) != 0)
+	if a.Max != nil && *a.Max != 0 && len(in) > *a.Max {
+		cls = oracle.UReject
+	}
 	want := uu.ID{Higher: hi, Lower: lo}
 	cp := append([]byte(nil), in...)
 	if a.Prev != nil {
@@ -237,7 +248,7 @@ func main() {
 		r.Reset = reset
 		reset()
 		pid := mc.NewProbe(r, "id", nil, probeID)
-		ptx := mc.NewProbe(r, "text", nil, probeText)
+		ptx := mc.NewProbe(r, "text", setupText, probeText)
 		r.Assume("reference: positional 8-4-4-4-12 big-endian table written from the RFC 4122 layout; prefix [uU][rR][nN]:uuid: ; a prefix that differs only in the case of 'uuid' is a don't-care (accept with the right value or reject)")
 		r.Assume("the kind of error is only constrained as far as the statement names it: a typed *uu.ParseError (instantiated with the type of the input that was passed) and a zero ID; which sentinel is wrapped is not judged")
 		pfl := mc.NewProbe(r, "two_results_in_flight", nil, probeFlight)
@@ -374,6 +385,38 @@ func main() {
 				})
 			}
 		})
+		for _, ml := range []int{0, 100, 46, 36, 40} {
+			ml := ml
+			r.Phase(fmt.Sprintf("MaxInputLength=%d: every substring of 4 valid texts and every extension by 1..20 bytes (5 fill bytes, before and after) x 4 rules", ml), "complete for the listed texts", func() {
+				setupText(txtArg{Max: &ml})
+				r.Parallel(int64(len(bases[:4])), 1, func(w *mc.W, bi int64) {
+					v := bases[bi]
+					seen := map[string]bool{}
+					do := func(s string) {
+						if seen[s] {
+							return
+						}
+						seen[s] = true
+						for rule := 0; rule < 4; rule++ {
+							w.Point()
+							ptx.Do(w, txtArg{In: mc.Bin(s), Rule: rule, Max: &ml})
+						}
+					}
+					for i := 0; i <= len(v); i++ {
+						for j := i; j <= len(v); j++ {
+							do(v[i:j])
+						}
+					}
+					for _, fill := range []string{"0", "a", "-", " ", "\n"} {
+						for k := 1; k <= 20; k++ {
+							do(v + strings.Repeat(fill, k))
+							do(strings.Repeat(fill, k) + v)
+						}
+					}
+				})
+				reset()
+			})
+		}
 		// truncated / extended lengths
 		r.Phase("all lengths 0..60 of a repeated valid text, and prefix variants", "complete grid", func() {
 			r.Serial(func(w *mc.W) {
